@@ -20,7 +20,8 @@ type Case struct {
 	Stream string  `json:"stream"`
 	Idx    int     `json:"idx"`
 	Pf     Profile `json:"profile"`
-	Hook   bool    `json:"hook"` // PRNG sleeps at the relay hook points
+	Hook   bool    `json:"hook"`            // PRNG sleeps at the relay hook points
+	Probe  string  `json:"probe,omitempty"` // one of Probes: a hand-written session instead of a generated one
 }
 
 // Field is one header field of a generated header list.
@@ -47,27 +48,28 @@ var opNames = [...]string{"HEADERS", "DATA", "RST_STREAM", "PRIORITY", "PUSH_PRO
 
 // Op is one scripted frame (a header block with its CONTINUATIONs is one Op).
 type Op struct {
-	K        OpKind
-	T        int    // track number during generation
-	S        uint32 // stream id (0 for connection frames)
-	Fields   []Field
-	NCont    int   // CONTINUATION frames after the HEADERS/PUSH_PROMISE
-	CutSeed  int64 // PRNG seed for the cut points
-	EmptyOK  bool  // empty fragments allowed
-	Pad      int   // -1 none; DATA: >=0 padded with that many bytes; HEADERS/PP: >0 padded
-	End      bool
-	Prio     *http2.PriorityParam
-	N        int // DATA payload length
-	Code     uint32
-	Promised uint32
-	PT       int // promised track
-	Settings []http2.Setting
-	Ping     [8]byte
-	Debug    []byte
-	Last     uint32
-	WaitHdr  bool // server: wait for the client's HEADERS on S first
-	WaitPP   bool // client: wait for the PUSH_PROMISE announcing S first
-	Phase    int
+	K          OpKind
+	T          int    // track number during generation
+	S          uint32 // stream id (0 for connection frames)
+	Fields     []Field
+	NCont      int   // CONTINUATION frames after the HEADERS/PUSH_PROMISE
+	CutSeed    int64 // PRNG seed for the cut points
+	EmptyOK    bool  // empty fragments allowed
+	EmptyFirst bool  // probe only: the HEADERS frame itself carries an empty fragment
+	Pad        int   // -1 none; DATA: >=0 padded with that many bytes; HEADERS/PP: >0 padded
+	End        bool
+	Prio       *http2.PriorityParam
+	N          int // DATA payload length
+	Code       uint32
+	Promised   uint32
+	PT         int // promised track
+	Settings   []http2.Setting
+	Ping       [8]byte
+	Debug      []byte
+	Last       uint32
+	WaitHdr    bool // server: wait for the client's HEADERS on S first
+	WaitPP     bool // client: wait for the PUSH_PROMISE announcing S first
+	Phase      int
 }
 
 func (o *Op) String() string {
